@@ -841,11 +841,14 @@ Inductive item :=
 | IFail (r : bres).    (* the stream reader (internal/stream Reader, not modelled here) or the
                           tokenizer failed with an error of this class *)
 
+(* a failure is never "Ready" *)
+Definition fail_class (r : bres) : bres := match r with BReady => BOther | _ => r end.
+
 (* the initiating side after it sent the request with id reqid: result and
    the new local address *)
 Definition bind_client (reqid : bytes) (reply : item) (local : jid) : bres * jid :=
   match reply with
-  | IFail r => (r, local)
+  | IFail r => (fail_class r, local)
   | INonStart => (BStream c_bad_format, local)
   | IElem (NText _) => (BStream c_bad_format, local)
   | IElem (NElem ns l attrs kids) =>
@@ -874,7 +877,7 @@ Definition default_verdict (remote : jid) (rid : bytes) : verdict :=
    called) and the reply written *)
 Definition bind_server (s2s : bool) (request : item) (v : verdict) : bres * option bytes * list tok :=
   match request with
-  | IFail r => (r, None, [])
+  | IFail r => (fail_class r, None, [])
   | INonStart => (BOther, None, [])
   | IElem (NText _) => (BOther, None, [])
   | IElem (NElem ns l attrs kids) =>
